@@ -287,6 +287,25 @@ impl Drop for MissingFieldLocationGuard {
     }
 }
 
+/// Starts a document with no fallback location and puts the previous one back afterwards, so a
+/// parse nested inside a user `Deserialize` impl does not report positions of the outer document.
+pub(crate) struct MissingFieldFallbackScope {
+    prev: Option<Location>,
+}
+
+impl MissingFieldFallbackScope {
+    pub(crate) fn enter() -> Self {
+        let prev = MISSING_FIELD_FALLBACK.with(|c| c.replace(None));
+        Self { prev }
+    }
+}
+
+impl Drop for MissingFieldFallbackScope {
+    fn drop(&mut self) {
+        MISSING_FIELD_FALLBACK.with(|c| c.set(self.prev));
+    }
+}
+
 /// The reason why a string value was transformed during parsing and cannot be borrowed.
 ///
 /// When deserializing to `&str`, the value must exist verbatim in the input. However,
